@@ -298,7 +298,7 @@ def pde_cases(draw, tier="quick"):
          "map": draw(st.sampled_from([None, "exp"])), "SNR": draw(st.sampled_from([50, 200, 1000])),
          "obs_map": draw(st.sampled_from([None, "upper_half", "every_second"])),
          "custom_exact": draw(st.booleans()), "e": draw(gen.vec(dim, -2, 2)), "p": draw(gen.vec(dim, -0.5, 0.5)),
-         "max_time": draw(st.sampled_from([0.02, 0.05]))}
+         "max_time": draw(st.sampled_from([0.02, 0.05])), "kappa_pow": draw(st.sampled_from([0, 0, -6, -9]))}
     if ft == "KL":
         c["field_params"] = {"num_modes": draw(st.integers(2, dim - 1))}
     elif ft == "Step":
@@ -330,7 +330,7 @@ def run_pde(c, rec):
     if c["map"] == "exp":
         kw.update(map=lambda f: np.exp(f), imap=lambda g: np.log(g))
     if c["custom_exact"]:
-        kw["exactSolution"] = A(c["exact"])
+        kw["exactSolution"] = A(c["exact"]) * (10.0 ** c.get("kappa_pow", 0) if which == "Poisson1D" else 1.0)
     if which == "Heat1D":
         kw["max_time"] = c["max_time"]
     e = A(c["e"])
@@ -348,7 +348,7 @@ def run_pde(c, rec):
     check_components(tp, rec, which)
     fe = np.asarray(tp.exactSolution.funvals, dtype=float)
     if c["custom_exact"]:
-        require(maxdiff(fe, A(c["exact"])) == 0, "exactSolution is not the function that was passed")
+        require(maxdiff(fe, A(c["exact"]) * (10.0 ** c.get("kappa_pow", 0) if which == "Poisson1D" else 1.0)) == 0, "exactSolution is not the function that was passed")
     # reference solution map on function values
     if which == "Poisson1D":
         N = dim - 1
@@ -398,7 +398,8 @@ def run_pde(c, rec):
     # forward on parameters goes through the domain geometry
     p = A(c["p"])[: model.domain_dim]
     if c["field_type"] in (None, "geometry_object") and c["map"] is None and which == "Poisson1D":
-        p = np.abs(p) + 0.5  # conductivity must be positive
+        # conductivity must be positive; it may be given in other units (1e-6, 1e-9 of the usual ones): u(c kappa) = u(kappa) / c
+        p = (np.abs(p) + 0.5) * 10.0 ** c.get("kappa_pow", 0)
     # the documented field representation, composed by the harness: the expansion named by field_type on the domain grid, then the map
     dgrid = np.asarray(model.domain_geometry.grid, dtype=float)
     if c["field_type"] == "KL":
@@ -490,6 +491,6 @@ SUBCHECKS = [
     SubCheck("C17/deconv1d", run_deconv1d, strategy=deconv1d_cases, n={"quick": 500, "thorough": 10000}, shards={"quick": 4, "thorough": 16}),
     SubCheck("C17/deconv1d_legacy", run_legacy, strategy=legacy_cases, n={"quick": 100, "thorough": 1500}, shards={"quick": 2, "thorough": 4}),
     SubCheck("C17/deconv2d", run_deconv2d, strategy=deconv2d_cases, n={"quick": 200, "thorough": 4000}, shards={"quick": 8, "thorough": 16}),
-    SubCheck("C17/pde_problems", run_pde, strategy=pde_cases, n={"quick": 200, "thorough": 3000}, shards={"quick": 8, "thorough": 16}),
+    SubCheck("C17/pde_problems", run_pde, strategy=pde_cases, n={"quick": 800, "thorough": 3000}, shards={"quick": 8, "thorough": 16}),
     SubCheck("C17/abel_wang", run_misc, strategy=misc_cases, n={"quick": 200, "thorough": 3000}, shards={"quick": 2, "thorough": 8}),
 ]
